@@ -124,6 +124,19 @@ func WriteByID(w io.Writer, id int, ctx *Ctx) (err error) {
 
 // Internal renderer.
 func write(w io.Writer, tpl *Tpl, ctx *Ctx) (err error) {
+	if err = writeTree(w, tpl, ctx); err != nil {
+		return
+	}
+
+	// Call defer functions consecutively.
+	// First failed function will stop that process and return error encountered.
+	err = ctx.defer_()
+
+	return
+}
+
+// Internal tree renderer. Renders both the outermost template and included ones.
+func writeTree(w io.Writer, tpl *Tpl, ctx *Ctx) (err error) {
 	// Walk over root nodes in tree and evaluate them.
 	for i := 0; i < len(tpl.tree.nodes); i++ {
 		n := &tpl.tree.nodes[i]
@@ -137,11 +150,6 @@ func write(w io.Writer, tpl *Tpl, ctx *Ctx) (err error) {
 			return
 		}
 	}
-
-	// Call defer functions consecutively.
-	// First failed function will stop that process and return error encountered.
-	err = ctx.defer_()
-
 	return
 }
 
@@ -609,7 +617,7 @@ func (t *Tpl) writeNode(w io.Writer, node *node, ctx *Ctx) (err error) {
 		tpl := tplDB.getBKeys(node.tpl)
 		if tpl != nil {
 			w1 := ctx.getW()
-			if err = write(w1, tpl, ctx); err != nil {
+			if err = writeTree(w1, tpl, ctx); err != nil {
 				return
 			}
 
